@@ -133,7 +133,8 @@ def geo_worlds(tier: str, seed: int, *, convs=W.ALL_CONVS, big: bool = True) -> 
             out.append(structured_world(conv, ny, nx, **c))
     if "ugrid" in convs:
         encs = [dict(base=0, fill="intfill"), dict(base=1, fill="intfill"), dict(base=1, fill="nan"),
-                dict(base=0, fill="nan", transposed=True), dict(base=0, fill="none", coords_as="coords")]
+                dict(base=0, fill="nan", transposed=True), dict(base=0, fill="none", coords_as="coords"),
+                dict(base=1, fill="intfill", fillvalue=0), dict(base=0, fill="intfill", fillvalue=-1)]
         for k, cells in enumerate(FAMILY):
             enc = encs[k % len(encs)]
             out.append(mesh_world(W.mesh_from_squares(cells, shape=["skew", "rect", "skew2"][k % 3]), enc=enc,
